@@ -200,15 +200,29 @@ func checkHOTPDerivation(c *Check, w *World, tb *TB, iv *IV, ef *Effects, pfx st
 				continue // "" on error paths (pairing checked below)
 			}
 			cl, isCall := alt.Val.(*ssa.Call)
+			var rend *ssa.Function
+			var numT, dT *Term
 			if alt.Op != "call" || !isCall || cl.Call.StaticCallee() == nil || !w.InModule(cl.Call.StaticCallee()) || len(alt.Args) != 2 {
-				okShape = false
-				c.Unk(pfx+".8", fn, "code-source", "a returned code is not produced by a module renderer f(number, digits): "+clip(alt.String(), 160), pos)
-				continue
+				ok := false
+				if roles.AltCode != nil {
+					numT, dT, ok = roles.AltCode(alt)
+				}
+				if !ok {
+					okShape = false
+					c.Unk(pfx+".8", fn, "code-source", "a returned code is not produced by a recognised renderer of (number, digits): "+clip(alt.String(), 160), pos)
+					continue
+				}
+				cl = sum
+			} else {
+				rend = cl.Call.StaticCallee()
+				numT, dT = alt.Args[0], alt.Args[1]
 			}
 			nCodes++
-			rend := cl.Call.StaticCallee()
-			numT, dT := alt.Args[0], alt.Args[1]
-			c.Decide(dT.String() == roles.Digits, pfx+".8", fn, "render-length:"+FuncName(rend), "the renderer gets the digits argument as length", "the renderer is given length "+clip(dT.String(), 100)+", not the digits argument", w.InstrPos(cl))
+			rname := "inline"
+			if rend != nil {
+				rname = FuncName(rend)
+			}
+			c.Decide(dT.String() == roles.Digits, pfx+".8", fn, "render-length:"+rname, "the renderer gets the digits argument as length", "the renderer is given length "+clip(dT.String(), 100)+", not the digits argument", w.InstrPos(cl))
 			// number = truncate(sum, mod)
 			exp := tb.Expand(numT, 2)
 			// find the modulus: the sub-term index(gval(table); D)
@@ -228,13 +242,15 @@ func checkHOTPDerivation(c *Check, w *World, tb *TB, iv *IV, ef *Effects, pfx st
 				pipe.modT = modT
 				c.Decide(modT.Args[1].String() == roles.Digits, pfx+".1", fn, "modulus-index", "the modulus table is indexed by the digits argument", "the modulus table is indexed by "+clip(modT.Args[1].String(), 100), w.InstrPos(cl))
 				if !seenRend[rend] {
-					checkTruncation(c, w, pfx+".7", fn, exp, sumT, modT, w.InstrPos(cl))
+					checkTruncation(c, w, pfx+".7", fn, exp, sumT, modT, w.InstrPos(cl), roles.ModOK)
 				}
 			}
 			if !seenRend[rend] {
 				seenRend[rend] = true
-				pipe.rends = append(pipe.rends, rend)
-				checkRenderer(c, w, tb, iv, pfx+".8", rend)
+				if rend != nil {
+					pipe.rends = append(pipe.rends, rend)
+					checkRenderer(c, w, tb, iv, pfx+".8", rend)
+				}
 			}
 		}
 	}
@@ -282,7 +298,7 @@ func checkHOTPDerivation(c *Check, w *World, tb *TB, iv *IV, ef *Effects, pfx st
 			codeEmpty := t0.IsConst() && t0.Sym == `""`
 			errNil := t1.IsConst() && t1.Sym == "nil"
 			errNonNil := nonNilAt(tb, p.v1, CondsAt(p.b), sent, 0)
-			isCode := t0.Op == "call"
+			isCode := !t0.IsConst()
 			if !((codeEmpty && errNonNil) || (isCode && errNil)) {
 				ok = false
 				c.Bad(pfx+".2", fn, construct, fmt.Sprintf("a return pairs code %s with error %s: a refusal must return no code and a non-nil error, a code must come with a nil error", clip(t0.String(), 80), clip(t1.String(), 80)), w.InstrPos(r))
